@@ -119,6 +119,29 @@ func Gate(point string) {
 	}
 }
 
+// Words renders 64-bit words little-endian as hex (the byte string they stand for).
+func Words(w []uint64) string {
+	const hexd = "0123456789abcdef"
+	b := make([]byte, 0, len(w)*16)
+	for _, x := range w {
+		for i := 0; i < 8; i++ {
+			c := byte(x >> (8 * i))
+			b = append(b, hexd[c>>4], hexd[c&15])
+		}
+	}
+	return string(b)
+}
+
+// Bytes renders a byte string as hex.
+func Bytes(p []byte) string {
+	const hexd = "0123456789abcdef"
+	b := make([]byte, 0, len(p)*2)
+	for _, c := range p {
+		b = append(b, hexd[c>>4], hexd[c&15])
+	}
+	return string(b)
+}
+
 // Step is Yield followed by Gate: one controllable point in front of an atomic step.
 func Step(point string) {
 	Yield(point)
